@@ -334,3 +334,38 @@ int bad_trunc__none__cp_ecdsa_sig(bn_t r, bn_t s, const uint8_t *msg, size_t len
 	bn_mod(s, s, n);
 	return RLC_OK;
 }
+
+/* TRUNC-SIB: the verifier reads one byte less than the signer before the same shift */
+int ok_truncsib__cp_ecss_sig(bn_t e, bn_t s, const uint8_t *hash, size_t len, const bn_t d) {
+	bn_t n;
+	bn_null(n);
+	bn_new(n);
+	ec_curve_get_ord(n);
+	if (8 * RLC_MD_LEN > bn_bits(n)) {
+		len = RLC_CEIL(bn_bits(n), 8);
+		bn_read_bin(e, hash, len);
+		bn_rsh(e, e, 8 * RLC_MD_LEN - bn_bits(n));
+	} else {
+		bn_read_bin(e, hash, RLC_MD_LEN);
+	}
+	bn_mod(e, e, n);
+	return RLC_OK;
+}
+
+int bad_trunc_sib__shorter__cp_ecss_ver(bn_t e, bn_t s, const uint8_t *hash, size_t len, const ec_t q) {
+	bn_t n, ev;
+	bn_null(n);
+	bn_null(ev);
+	bn_new(n);
+	bn_new(ev);
+	ec_curve_get_ord(n);
+	if (8 * RLC_MD_LEN > bn_bits(n)) {
+		len = bn_bits(n) / 8;
+		bn_read_bin(ev, hash, len);
+		bn_rsh(ev, ev, 8 * RLC_MD_LEN - bn_bits(n));
+	} else {
+		bn_read_bin(ev, hash, RLC_MD_LEN);
+	}
+	bn_mod(ev, ev, n);
+	return bn_cmp(ev, e) == RLC_EQ;
+}
